@@ -82,6 +82,44 @@ pub fn check(sh: &Shared, c: &Case) -> Check {
         }
         alone.push(a);
     }
+    // the same inputs parsed on a FRESH thread (no history at all, thread-local state included)
+    // must give the same outcomes as on this long-lived worker thread
+    // (thread creation costs milliseconds next to 16 busy workers: done for one case in six)
+    if fp(&texts) % 6 == 0 {
+        sh.class("reference/fresh-thread");
+        let fresh: Vec<(Option<R>, Option<bool>)> = std::thread::scope(|sc| {
+            std::thread::Builder::new()
+                .stack_size(16 << 20)
+                .spawn_scoped(sc, || {
+                    texts
+                        .iter()
+                        .map(|s| {
+                            let e = match guard(|| fmts::e(fi).parse::<Narsese>(s)) {
+                                Ok(Ok(v)) => Some(R::Ok(canon_n(&v))),
+                                Ok(Err(_)) => Some(R::Err),
+                                Err(_) => None,
+                            };
+                            let lx = guard(|| fmts::l(fi).parse(s).is_ok()).ok();
+                            (e, lx)
+                        })
+                        .collect()
+                })
+                .unwrap()
+                .join()
+                .unwrap()
+        });
+        for (i, s) in texts.iter().enumerate() {
+            if let Some(e) = &fresh[i].0 {
+                if *e != alone[i] {
+                    fail!("parse:history-dependent", "input {s:?}\non a fresh thread {}\non the long-lived worker thread {}", show(e), show(&alone[i]));
+                }
+            }
+            let here = guard(|| l.parse(s).is_ok()).ok();
+            if fresh[i].1.is_some() && here.is_some() && fresh[i].1 != here {
+                fail!("lexical:history-dependent", "input {s:?}\nlexical parse on a fresh thread ok={:?}, on the long-lived worker thread ok={:?}", fresh[i].1, here);
+            }
+        }
+    }
     // batch
     let batch = match guard(|| f.parse_multi(texts.iter().copied())) {
         Err(p) => fail!("panic:parse_multi", "inputs {texts:?}\npanic {p}"),
@@ -114,7 +152,7 @@ pub fn check(sh: &Shared, c: &Case) -> Check {
 }
 
 fn fragment(fi: usize) -> BoxedStrategy<String> {
-    let t = gen::task_with(gen::term(gen::TermOpts { depth: 2, size: 6, deep: false, ..gen::TermOpts::main(fi) }));
+    let t = gen::task_with(gen::term(gen::TermOpts { depth: 2, size: 6, deep_max: 0, ..gen::TermOpts::main(fi) }));
     (t, 1u8..31)
         .prop_map(move |(td, mask)| {
             let task = build_task(&td);
@@ -166,7 +204,7 @@ fn input(fi: usize) -> BoxedStrategy<(String, String)> {
 /// aligned so that whatever the earlier input left behind at those positions would complete the
 /// keyword (stale buffers / cursors must not matter)
 fn aligned_pair(fi: usize) -> BoxedStrategy<Vec<(String, String)>> {
-    let small = gen::TermOpts { depth: 2, size: 6, deep: false, ..gen::TermOpts::main(fi) };
+    let small = gen::TermOpts { depth: 2, size: 6, deep_max: 0, ..gen::TermOpts::main(fi) };
     (gen::sentence_with(gen::term(small)), any::<u16>(), 1usize..=3, gen::name_char(fi, gen::NameProfile::Main))
         .prop_map(move |(s, pick, keep, filler)| {
             let long = strgen::text_of(fi, &ND::Sentence(s));
@@ -198,10 +236,42 @@ fn aligned_pair(fi: usize) -> BoxedStrategy<Vec<(String, String)>> {
         .boxed()
 }
 
+/// two inputs that are equal modulo blanks (one blank inserted somewhere, possibly inside a
+/// token): results must not be shared between them
+fn blank_variants(fi: usize) -> BoxedStrategy<Vec<(String, String)>> {
+    (input(fi), any::<u16>(), any::<bool>())
+        .prop_map(|((class, text), pos, first)| {
+            let mut c: Vec<char> = text.chars().collect();
+            let i = ((pos as usize) * (c.len() + 1)) >> 16;
+            c.insert(i, ' ');
+            let variant: String = c.into_iter().collect();
+            if first {
+                vec![(class, text), ("blank-variant".to_string(), variant)]
+            } else {
+                vec![("blank-variant".to_string(), variant), (class, text)]
+            }
+        })
+        .boxed()
+}
+
+/// values printed with surface sugar (decorated placeholders `_x`, padded intervals, derived copulas)
+fn sugared(fi: usize) -> BoxedStrategy<(String, String)> {
+    let small = gen::TermOpts { depth: 2, size: 8, deep_max: 0, ..gen::TermOpts::main(fi) };
+    (gen::narsese(small), gen::tape())
+        .prop_map(move |(nd, tape)| {
+            let v = build_n(&nd);
+            let (toks, _) = printer::tokens(fi, &v, Style::Sugar, &tape);
+            (nd.kind_name().to_string(), printer::render(fi, &toks))
+        })
+        .boxed()
+}
+
 pub fn strategy() -> BoxedStrategy<Case> {
     gen::fmt_and(|fi| {
         prop_oneof![
-            88 => vec(input(fi), 1..=8),
+            70 => vec(input(fi), 1..=8),
+            9 => (vec(input(fi), 0..=2), blank_variants(fi), vec(input(fi), 0..=1)).prop_map(|(mut a, b, c)| { a.extend(b); a.extend(c); a }),
+            9 => (vec(sugared(fi), 1..=3), vec(input(fi), 1..=3)).prop_map(|(mut a, b)| { a.extend(b); a }),
             12 => (vec(input(fi), 0..=2), aligned_pair(fi), vec(input(fi), 0..=1)).prop_map(|(mut a, b, c)| { a.extend(b); a.extend(c); a }),
         ]
         .boxed()
